@@ -189,6 +189,14 @@ func Run(file string, seed int64, n int) (*Report, error) {
 	return rep, sc.Err()
 }
 
+// held keeps the previous event and a private copy of what was stored for it: formatting a later event
+// must not alter it (the stored line stays the image of ITS event).
+var held struct {
+	e    *eventlogger.Event
+	line []byte
+	vec  interface{}
+}
+
 func runVec(rep *Report, v *Vec, rng *rand.Rand) {
 	rep.Runs++
 	bad := func(what string, exp, obs interface{}) {
@@ -227,6 +235,14 @@ func runVec(rep *Report, v *Vec, rng *rand.Rand) {
 		node = &eventlogger.Filter{Predicate: func(*eventlogger.Event) (bool, error) { return pred() }}
 	}
 	out, err := node.Process(context.Background(), e)
+	func() {
+		if held.e != nil {
+			if cur, ok := held.e.Format(eventlogger.JSONFormat); !ok || !bytes.Equal(cur, held.line) {
+				rep.mm(Mismatch{What: "the line stored for an earlier event changed when a later event was formatted", Vector: held.vec, Expected: string(held.line), Observed: string(cur)})
+			}
+			held.e = nil
+		}
+	}()
 	res := ""
 	switch {
 	case err != nil:
@@ -294,6 +310,7 @@ func runVec(rep *Report, v *Vec, rng *rand.Rand) {
 	if json.Unmarshal(doc["payload"], &b) != nil || !reflect.DeepEqual(a, b) {
 		bad("payload member is the JSON image of the payload", string(ind), string(doc["payload"]))
 	}
+	held.e, held.line, held.vec = e, append([]byte{}, line...), v.X
 	if other, ok := e.Format("other"); ok && string(other) != "untouched" {
 		bad("another format's bytes were altered", "untouched", string(other))
 	}
